@@ -161,7 +161,7 @@ def main(tier, replay=None):
     camp.run([], [random_exec(rng, 25, True) for _ in range(6 if quick else 60)], "random/bufsiz")
     camp.run([], [print_scan_exec(rng) for _ in range(10 if quick else 100)], "print-scan")
     # a close that fails (buffered bytes refused by /dev/full): IOError, one fclose, nothing left to close at del
-    camp.run([], [["reset", "fullclose"], ["reset", "new 1 1 2", "write 1 1 3", "fullclose", "close 1", "fullclose", "del 1"]], "failing-close", sample=False)
+    camp.run([], [["reset", "fullclose"], ["reset", "new 1 1 2", "write 1 1 3", "fullclose", "close 1", "fullclose", "del 1"], ["reset", "procclose2"]], "failing-close", sample=False)
     chk.cov["rule"] = ("an execution = a history of stream calls on real Files (private temp dir); every event carries return value, "
                        "exception, bytes read (or length+sum for large chunks), the C library's ftell/feof of every open stream and the "
                        "fopen/fclose counters; judged by TLC against FileStream; distinct = different history")
